@@ -8,7 +8,7 @@ from sklearn.feature_extraction.text import CountVectorizer, TfidfVectorizer
 
 PROPERTY = "C14"
 RULE = ("Hypothesis draws a corpus (1-8 documents of 0-8 tokens over an alphabet holding English stop words, 1-character tokens, "
-        "case variants, repeated tokens; empty documents and documents shorter than n occur), a second corpus for transform(), and "
+        "case variants, repeated tokens; empty documents and documents shorter than n occur; one case in eight also holds a document of 257..2049 tokens), a second corpus for transform(), and "
         "options ngram_range 1<=a<=b<=4, stop_words None|'english'|list, lowercase, binary, min_df/max_df (ints and floats), "
         "max_features, and for tf-idf use_idf/smooth_idf/sublinear_tf/norm; default tokenizer only. Oracle: differential against "
         "CountVectorizer/TfidfVectorizer built with the same arguments (same exception type, or equal matrices for fit_transform and "
@@ -100,6 +100,11 @@ def check(case):
         ref, tra = CountVectorizer(**kw), _mod.TraceableCountVectorizer(**kw)
         tol = 0.0
     corpus, other = list(case["corpus"]), list(case["other"])
+    for lg in case.get("long", []):
+        # a long document (hundreds to thousands of tokens: a size at which an implementation may start working in windows), given as a
+        # short drawn pattern repeated to the drawn length
+        toks = [lg["pattern"][i % len(lg["pattern"])] for i in range(lg["length"])]
+        (corpus if lg["where"] == "corpus" else other).append(" ".join(toks))
 
     def facts_of(o):
         return dict(kind=o["kind"], stop_words=("list" if isinstance(o["stop_words"], list) else o["stop_words"]),
@@ -125,6 +130,8 @@ def check(case):
         tra.set_params(**kw2)
         second = _fit_compare(ref, tra, o2, corpus, other, dict(facts_of(o2), reconfigured=True), tol, stage=":after-set_params")
         labels.append("reconfigured" + (":both-refuse" if second is None else (":ngram-range-changed" if o2["ngram_range"] != o["ngram_range"] else "")))
+    if case.get("long"):
+        labels.append("long-document")
     if first is None:
         return Outcome(labels, False)
     return Outcome(labels, b >= 2 or o["stop_words"] is not None or removed)
@@ -161,7 +168,12 @@ def _cases(draw, tier="quick"):
         if draw(st.booleans()):
             # only the n-gram range changes
             o2 = dict(o, ngram_range=o2["ngram_range"])
-    return dict(corpus=corpus, other=other, options=o, options2=o2)
+    long = []
+    if draw(st.integers(0, 7)) == 0:
+        for _ in range(draw(st.integers(1, 2))):
+            long.append(dict(pattern=draw(st.lists(st.sampled_from(WORDS), min_size=3, max_size=11)),
+                             length=draw(st.sampled_from([257, 511, 512, 513, 600, 1023, 1025, 1500, 2049])), where=draw(st.sampled_from(["corpus", "other"]))))
+    return dict(corpus=corpus, other=other, options=o, options2=o2, long=long)
 
 
 CLAUSES = [
